@@ -29,7 +29,7 @@ E2E_THEOREMS = ["C10_real_codec_hypotheses", "C10_readers_agree", "C10_real_code
                 "C10_real_codec_example_rebuilt", "C10_real_codec_example_hypotheses", "C10_written_then_edited_lossless"]
 
 
-def proof_stage(chk, theorems, requires_extra=(), composed=False):
+def proof_stage(chk, theorems, requires_extra=(), composed=False, composed_theorems=None, composed_requires=None):
     requires = ["Coq.Lists.List", "Coq.NArith.NArith", "FlacBase.Res", "FlacBase.Bits", "FlacUpdIo.Update",
                 "FlacUpdIo.Update_proofs", "FlacUpdIo.Pins"] + list(requires_extra)
     files = [f for f in vlib.coq_files(AREA) if f not in ("GenUpd.v", "Extract.v")]
@@ -48,8 +48,8 @@ def proof_stage(chk, theorems, requires_extra=(), composed=False):
             build_dir=cq("e2eupd"),
             qflags="-Q ../base FlacBase -Q ../codec FlacCodec -Q ../metadata FlacMeta -Q ../updateio FlacUpdIo -Q ../writers FlacWriters "
                    "-Q ../readers FlacReaders -Q ../e2e FlacE2E -Q ../e2emeta FlacE2EMeta -Q . FlacE2EUpd",
-            requires=requires + ["FlacUpdIo.Update_cond", "FlacE2EUpd.Props_E2EUpd", "FlacE2EUpd.Props_WrittenEdited"],
-            theorems=theorems + E2E_THEOREMS,
+            requires=requires + ["FlacUpdIo.Update_cond"] + list(composed_requires or ["FlacE2EUpd.Props_E2EUpd", "FlacE2EUpd.Props_WrittenEdited"]),
+            theorems=theorems + list(composed_theorems or E2E_THEOREMS),
             obligation_files=[(AREA, files), (cq("e2eupd"), vlib.coq_files(cq("e2eupd")))], gen_steps=gen)
     return vlib.proof_stage(
         chk, coq_dirs=[BASE, AREA], build_dir=AREA, qflags=QFLAGS, requires=requires, theorems=theorems,
